@@ -60,6 +60,21 @@ def c02(run):
         n = good(seq, tz)
         extra.append({"k": "C02", "tZero": tz, "seq": seq, "allowedN": [n],
                       "predicted": {"n": n, "nilerr": n == ln, "cls": "?"}, "sampled": True})
+    # long ranges (33..70 headers) with one defect at every position: whatever is done per chunk, per batch or per
+    # goroutine inside VerifyRange must not depend on where in the range the defect sits
+    nlong = 0
+    for ln in ((33, 48) if run.tier == "quick" else (33, 40, 48, 64, 70)):
+        for pos in range(ln):
+            for k in (("ok2", "lower", "zero", "typesoft") if run.tier == "quick" else [x for x in kinds if x != "ok1"]):
+                if run.tier == "quick" and k != "ok2" and rnd.random() > 0.34:
+                    continue
+                seq = ["ok1"] * ln
+                seq[pos] = k
+                n = good(seq, False)
+                extra.append({"k": "C02", "tZero": False, "seq": seq, "allowedN": [n],
+                              "predicted": {"n": n, "nilerr": n == ln, "cls": "?"}, "sampled": True})
+                nlong += 1
+    run.cov["long_sequences"] = nlong
     for c in cases[:2] + cases[700:702] + extra[:1]:
         run.sample(c)
     run.cov["exhaustive"] = True
